@@ -33,6 +33,12 @@ fn literals() -> Vec<V> {
         V::Sym("s".into()),
         V::dt(1_625_097_600, 0, "UTC"),
         V::num(-1.0),
+        // same second / same minute as a record value, differing in the fraction only
+        V::dt(1_625_097_600, 100_000_000, "UTC"),
+        V::dt(1_625_097_600, 900_000_000, "Asia/Kolkata"),
+        V::Time(12, 0, 0, 100_000_000),
+        V::num(0.0),
+        V::num(5.000000000000001),
     ]
 }
 
@@ -62,6 +68,21 @@ fn tag_values() -> Vec<Option<V>> {
         Some(V::Bool(false)),
         Some(V::List(vec![V::numu(5.0, "kW"), V::Ref("r".into(), None)])),
         Some(V::Na),
+        Some(V::dt(1_625_097_600, 500_000_000, "UTC")),
+        Some(V::dt(1_625_097_601, 0, "Australia/Sydney")),
+        Some(V::dt(1_625_097_600, 100_000_001, "UTC")),
+        Some(V::Time(12, 0, 0, 500_000_000)),
+        Some(V::Time(11, 59, 59, 999_999_999)),
+        Some(V::num(-0.0)),
+        Some(V::num(4.999999999999999)),
+        Some(V::str("t")),
+        Some(V::Uri("v".into())),
+        Some(V::Sym("t".into())),
+        Some(V::Remove),
+        Some(V::XStr("Bin".into(), "s".into())),
+        Some(V::Coord(5.0, 5.0)),
+        Some(V::List(vec![V::List(vec![V::num(5.0)]), V::dict(&[("b", V::num(5.0))]), V::num(9.0), V::num(8.0), V::num(5.0)])),
+        Some(V::List(vec![V::Date(2021, 1, 1), V::Time(12, 0, 0, 0), V::dt(1_625_097_600, 0, "UTC"), V::str("s")])),
     ]
 }
 
@@ -400,7 +421,7 @@ fn check_grid(rows: &[Tags], f: &F) -> Verdict {
 
 pub fn run(tier: Tier) -> i32 {
     let mut run = Run::new("C07", tier, "model_checking");
-    run.rule = "programs = filter trees built from the public node structs: every single leaf (has/missing over 8 paths of 1-4 segments; 6 operators x 13 literals of every literal kind x 4 paths) on 144 records (tag a over 24 values of every kind incl. Null, lists, nested dicts; b, n present/absent); every and/or/parens shape with <= 3 leaves over a kind-distinct leaf core and 7 shapes with 4 leaves (and-of-ors, or-of-ands, mixed precedence, nested groups) over a 7/20-leaf core; `*==` against a caller-supplied resolver over 48 ref worlds (chains 0-3, 1- and 2-cycles, dangling); Grid::filter / filter_all on every grid of <= 3 rows over 8 records. Oracle: reference evaluator written from the statement (unit-mismatched ordering = unconstrained, skipped). states = filters, transitions = (filter, record) evaluations = traces validated; non-trivial = filter that is true on some record and false on another".into();
+    run.rule = "programs = filter trees built from the public node structs: every single leaf (has/missing over 8 paths of 1-4 segments; 6 operators x 18 literals of every literal kind x 4 paths) on 240 records (tag a over 40 values of every kind incl. Null, lists, nested dicts; b, n present/absent); every and/or/parens shape with <= 3 leaves over a kind-distinct leaf core and 7 shapes with 4 leaves (and-of-ors, or-of-ands, mixed precedence, nested groups) over a 7/20-leaf core; `*==` against a caller-supplied resolver over 48 ref worlds (chains 0-3, 1- and 2-cycles, dangling); Grid::filter / filter_all on every grid of <= 3 rows over 8 records. Oracle: reference evaluator written from the statement (unit-mismatched ordering = unconstrained, skipped). states = filters, transitions = (filter, record) evaluations = traces validated; non-trivial = filter that is true on some record and false on another".into();
     run.assume("value equality of the filter language: same kind and value, Ref by id, DateTime by instant");
     run.assume("`^symbol` is covered by C13; relationship terms are only exercised for termination (C09)");
     crate::engine::quiet_panics();
